@@ -1,0 +1,31 @@
+package common
+
+import (
+	"fmt"
+
+	"github.com/protolambda/ztyp/bitfields"
+	"github.com/protolambda/ztyp/codec"
+)
+
+// ReadBitList reads a serialized SSZ bitlist (including its delimiter bit) of at most bitLimit bits
+// from the remaining scope of dr into dst.
+//
+// A bitlist of N bits takes N/8 + 1 bytes: when the limit is a multiple of 8, a full list needs a
+// byte of its own for the delimiter bit. codec.DecodingReader.BitList bounds the byte length with
+// (bitLimit+7)/8 and refuses such a list, so the length is checked here instead.
+func ReadBitList(dr *codec.DecodingReader, dst *[]byte, bitLimit uint64) error {
+	byteLen := dr.Scope()
+	if byteLimit := (bitLimit >> 3) + 1; byteLen > byteLimit {
+		return fmt.Errorf("bitlist is too big: %d bytes, limit is %d (bitlimit %d)", byteLen, byteLimit, bitLimit)
+	}
+	// grow the destination if necessary
+	if uint64(cap(*dst)) < byteLen {
+		*dst = make([]byte, byteLen, byteLen)
+	} else {
+		*dst = (*dst)[:byteLen]
+	}
+	if _, err := dr.Read(*dst); err != nil {
+		return err
+	}
+	return bitfields.BitlistCheck(*dst, bitLimit)
+}
